@@ -370,7 +370,22 @@ func l2(w *World, r *Report) {
 			}
 		}
 	}
-	okOwner := len(writers) == 1 && len(writers["ledger.(*FinalityLedger).Commit"]) >= 3
+	// every writer is Commit itself or a helper that only Commit reaches
+	okOwner := len(all) >= 3
+	for name := range writers {
+		if name == "ledger.(*FinalityLedger).Commit" {
+			continue
+		}
+		var wf *ssa.Function
+		for _, fn := range w.ModuleFuncs() {
+			if w.FName(fn) == name {
+				wf = fn
+			}
+		}
+		if _, ok := w.onlyReachedFrom(wf, map[string]string{"ledger.(*FinalityLedger).Commit": ""}, 0, map[*ssa.Function]bool{}); !ok {
+			okOwner = false
+		}
+	}
 	var ws []string
 	for k, v := range writers {
 		ws = append(ws, k+": "+strings.Join(v, " "))
@@ -382,36 +397,64 @@ func l2(w *World, r *Report) {
 	}
 	cm := needFn(r, "L-2", w, fref{pkgLedger, "FinalityLedger", "Commit"})
 	if cm != nil {
-		var sets, removes, saves []ssa.Instruction
-		for _, c := range CallsIn(cm) {
+		// on every path through Commit (helpers expanded) no removal follows an update
+		var sets, removes []ssa.Instruction
+		ev := func(in ssa.Instruction) string {
+			c, ok := in.(ssa.CallInstruction)
+			if !ok {
+				return ""
+			}
 			obj := calleeObj(c.Common())
 			if obj == nil || obj.Pkg() == nil || obj.Pkg().Path() != "github.com/cosmos/iavl" {
-				continue
+				return ""
 			}
 			switch obj.Name() {
 			case "Set":
 				sets = append(sets, c)
+				return "Set"
 			case "Remove":
 				removes = append(removes, c)
+				return "Remove"
 			case "SaveVersion":
-				saves = append(saves, c)
+				return "Save"
 			}
+			return ""
 		}
-		bad := false
-		for _, s := range sets {
-			for _, rm := range removes {
-				if instrReaches(s, rm) {
+		paths, complete := w.enumPaths(cm, func(ssa.Value) (bool, bool) { return false, false }, ev, 4000)
+		bad := !complete
+		for _, p := range paths {
+			seenSet := false
+			for _, e := range p.Events {
+				if e == "Set" {
+					seenSet = true
+				}
+				if e == "Remove" && seenSet {
 					bad = true
 				}
 			}
 		}
 		r.Check(len(sets) > 0 && len(removes) > 0 && !bad, "L-2", "removals-before-updates", "no tree.Remove can follow a tree.Set within one commit (issue #58: a re-created key survives)", "a removal can be applied after an update within one commit (a key deleted and re-created in the block would vanish)", fmtSites(w, append(removes, sets...)...)...)
-		okSave := len(saves) == 1
-		for _, s := range sets {
-			if okSave && !instrReaches(s, saves[0]) {
+		// SaveVersion exactly once on every successful path, after every update
+		okSave := complete
+		nOK := 0
+		for _, p := range paths {
+			if p.Term != "ok" && p.Term != "unknown" {
+				continue
+			}
+			nOK++
+			n, last := 0, ""
+			for _, e := range p.Events {
+				if e == "Save" {
+					n++
+				}
+				last = e
+			}
+			if n != 1 || last != "Save" {
 				okSave = false
 			}
 		}
+		okSave = okSave && nOK > 0
+		var saves []ssa.Instruction
 		r.Check(okSave, "L-2", "save-after-updates", "SaveVersion follows the updates", "SaveVersion is not after the tree updates", fmtSites(w, saves...)...)
 	}
 	// iterators read the tree only
